@@ -5,8 +5,20 @@
 //! dflt=<item>`. Each resource has a queue of scripted check results (`manual script r=<i> seq=h,d3,u,k,s`):
 //! letter = result (healthy / degraded / unhealthy / unknown / s = never completes), digits = latency in
 //! virtual ms counted from the call of `check()`; an empty queue yields `dflt`.
-//! The checker is the harness's own, so it logs `check_start r item`, `check_done r sym` and (from a
-//! drop guard: the wrapper's `timeout` dropped the check future) `check_drop r`.
+//! The checker is the harness's own, so it logs `check_start r item k`, `check_done r sym k` and (from a
+//! drop guard: the wrapper's `timeout` dropped the check future) `check_drop r k` (k = serial number of the check).
+//!
+//! Construction paths (header): `via=cfg` builds a stand-alone `HealthCheckConfig::builder()…build()` — a setter
+//! only for the keys present in the header, so absent ones keep the crate's defaults — and hands it over with
+//! `HealthCheckWrapperBuilder::default().with_config(cfg)`; `pre=k:v,…` / `post=k:v,…` (k in iv,delay,to,sth,fth)
+//! call the wrapper builder's own setters before / after `with_config`; `cb=1` registers `on_health_change` and
+//! `on_check_failed` (logged as `cb_change r old new` / `cb_failed r`); `chk=fn` gives the checker as a boxed
+//! closure (the crate's blanket `HealthChecker` impl); `start=0` does not call `start()` when the wrapper is built.
+//! Ops: `manual start` / `manual stop` (`start()` again, `stop()`), `probe config` (the getters of the config value),
+//! `probe u8 v=<n>` (`HealthStatus` <-> `u8`), `probe fresh n=<k>` (contexts from `HealthCheckedContext::new`, a
+//! closure through the `Selector` trait, extensions).
+//! Every completion is also reported as an observed choice `@o=<serial>` on the op line: the order of completions
+//! that fall on one instant is the scheduler's.
 use crate::world::*;
 use std::collections::VecDeque;
 use std::future::Future;
@@ -14,7 +26,9 @@ use std::pin::Pin;
 use std::sync::{Arc, Mutex};
 use std::task::{Context, Poll};
 use std::time::Duration;
-use tower_resilience_healthcheck::{HealthCheckWrapper, HealthChecker, HealthStatus, SelectionStrategy};
+use tower_resilience_healthcheck::{
+    HealthCheckConfig, HealthCheckWrapper, HealthCheckWrapperBuilder, HealthCheckedContext, HealthChecker, HealthStatus, SelectionStrategy, Selector,
+};
 
 #[derive(Clone, Copy, Debug)]
 struct Item {
@@ -44,14 +58,17 @@ fn render_item(it: &Item) -> String {
 struct Scripts {
     q: Vec<VecDeque<Item>>,
     dflt: Item,
+    /// checks started so far in this case (next serial)
+    next: u64,
 }
 
 pub struct Checker {
     scripts: Arc<Mutex<Scripts>>,
 }
 
-struct CheckFut {
+pub struct CheckFut {
     r: usize,
+    k: u64,
     sym: char,
     sleep: Option<Pin<Box<tokio::time::Sleep>>>,
     done: bool,
@@ -69,7 +86,8 @@ impl Future for CheckFut {
             }
         }
         self.done = true;
-        log(format!("check_done {} {}", self.r, self.sym));
+        obs("o", self.k);
+        log(format!("check_done {} {} {}", self.r, self.sym, self.k));
         Poll::Ready(match self.sym {
             'h' => HealthStatus::Healthy,
             'd' => HealthStatus::Degraded,
@@ -82,31 +100,58 @@ impl Future for CheckFut {
 impl Drop for CheckFut {
     fn drop(&mut self) {
         if !self.done {
-            log(format!("check_drop {}", self.r));
+            obs("o", self.k);
+            log(format!("check_drop {} {}", self.r, self.k));
         }
     }
 }
 
+fn start_check(scripts: &Arc<Mutex<Scripts>>, r: usize) -> CheckFut {
+    let (it, k) = {
+        let mut s = scripts.lock().unwrap();
+        let d = s.dflt;
+        let k = s.next;
+        s.next += 1;
+        (s.q.get_mut(r).and_then(|q| q.pop_front()).unwrap_or(d), k)
+    };
+    log(format!("check_start {} {} {}", r, render_item(&it), k));
+    // latency counts from the call of `check()`: the Sleep is created here
+    let sleep = if it.sym != 's' && it.lat > 0 {
+        Some(Box::pin(tokio::time::sleep(Duration::from_millis(it.lat))))
+    } else {
+        None
+    };
+    CheckFut { r, k, sym: it.sym, sleep, done: false }
+}
+
 impl HealthChecker<usize> for Checker {
     fn check(&self, r: &usize) -> impl Future<Output = HealthStatus> + Send {
-        let it = {
-            let mut s = self.scripts.lock().unwrap();
-            let d = s.dflt;
-            s.q.get_mut(*r).and_then(|q| q.pop_front()).unwrap_or(d)
-        };
-        log(format!("check_start {} {}", r, render_item(&it)));
-        // latency counts from the call of `check()`: the Sleep is created here
-        let sleep = if it.sym != 's' && it.lat > 0 {
-            Some(Box::pin(tokio::time::sleep(Duration::from_millis(it.lat))))
-        } else {
-            None
-        };
-        CheckFut { r: *r, sym: it.sym, sleep, done: false }
+        start_check(&self.scripts, *r)
     }
 }
 
+/// the checker given as a closure: the crate's blanket `impl HealthChecker<T> for F where F: Fn(&T) -> Fut`
+type FnChecker = Box<dyn Fn(&usize) -> CheckFut + Send + Sync>;
+
+enum W {
+    S(HealthCheckWrapper<usize, Checker>),
+    F(HealthCheckWrapper<usize, FnChecker>),
+}
+
+/// the same expression on whichever wrapper type the case was built with
+macro_rules! on_w {
+    ($self:expr, $w:ident => $e:expr) => {
+        match &$self.wrapper {
+            W::S($w) => $e,
+            W::F($w) => $e,
+        }
+    };
+}
+
 pub struct Adapter {
-    wrapper: HealthCheckWrapper<usize, Checker>,
+    wrapper: W,
+    /// the `HealthCheckConfig` value handed to `with_config` (a clone of it), when that path was taken
+    config: Option<HealthCheckConfig>,
     scripts: Arc<Mutex<Scripts>>,
     n: usize,
 }
@@ -152,17 +197,84 @@ pub fn render(r: Option<Option<usize>>) -> String {
     }
 }
 
-impl Adapter {
-    /// must be called inside the runtime (`start` spawns the periodic task)
-    pub fn new(kv: &Kv) -> Adapter {
-        let n = kv.u64("n", 1) as usize;
-        let dflt = parse_item(&kv.str("dflt", "k")).unwrap_or(Item { sym: 'k', lat: 0 });
-        let scripts = Arc::new(Mutex::new(Scripts { q: (0..n).map(|_| VecDeque::new()).collect(), dflt }));
-        let mut b = HealthCheckWrapper::builder().with_checker(Checker { scripts: scripts.clone() });
+fn st_letter(s: HealthStatus) -> &'static str {
+    match s {
+        HealthStatus::Healthy => "h",
+        HealthStatus::Degraded => "d",
+        HealthStatus::Unhealthy => "u",
+        HealthStatus::Unknown => "k",
+    }
+}
+
+/// resource names are `r<i>`
+fn res_index(name: &str) -> String {
+    name.strip_prefix('r').unwrap_or(name).to_string()
+}
+
+/// `k:v,k:v` with k in iv,delay,to,sth,fth: the wrapper builder's own setters
+fn apply_setters<C: HealthChecker<usize> + 'static>(mut b: HealthCheckWrapperBuilder<usize, C>, list: &str) -> HealthCheckWrapperBuilder<usize, C> {
+    for part in list.split(',') {
+        let Some((k, v)) = part.split_once(':') else { continue };
+        let Ok(v) = v.parse::<u64>() else { continue };
+        b = match k {
+            "iv" => b.with_interval(Duration::from_millis(v)),
+            "delay" => b.with_initial_delay(Duration::from_millis(v)),
+            "to" => b.with_timeout(Duration::from_millis(v)),
+            "sth" => b.with_success_threshold(v as u32),
+            "fth" => b.with_failure_threshold(v as u32),
+            _ => b,
+        };
+    }
+    b
+}
+
+/// the stand-alone config: a setter only for the keys the header has (the others keep the crate's defaults)
+fn build_config(kv: &Kv) -> HealthCheckConfig {
+    let mut c = HealthCheckConfig::builder();
+    if let Some(v) = kv.opt_u64("iv") {
+        c = c.interval(Duration::from_millis(v));
+    }
+    if let Some(v) = kv.opt_u64("delay") {
+        c = c.initial_delay(Duration::from_millis(v));
+    }
+    if let Some(v) = kv.opt_u64("to") {
+        c = c.timeout(Duration::from_millis(v));
+    }
+    if let Some(v) = kv.opt_u64("sth") {
+        c = c.success_threshold(v as u32);
+    }
+    if let Some(v) = kv.opt_u64("fth") {
+        c = c.failure_threshold(v as u32);
+    }
+    if let Some(s) = kv.get("strat") {
+        c = c.selection_strategy(strategy(s));
+    }
+    if kv.u64("cb", 0) == 1 {
+        c = c
+            .on_health_change(|name, old, new| log(format!("cb_change {} {} {}", res_index(name), st_letter(old), st_letter(new))))
+            .on_check_failed(|name, _err| log(format!("cb_failed {}", res_index(name))));
+    }
+    c.build()
+}
+
+fn build<C: HealthChecker<usize> + 'static>(kv: &Kv, n: usize, checker: C) -> (HealthCheckWrapper<usize, C>, Option<HealthCheckConfig>) {
+    if kv.get("via") == Some("cfg") {
+        let cfg = build_config(kv);
+        let mut b = HealthCheckWrapperBuilder::default().with_checker(checker);
         for i in 0..n {
             b = b.with_context(i, format!("r{}", i));
         }
-        let wrapper = b
+        // setters called before `with_config` are overwritten by it, those called after it override it
+        b = apply_setters(b, &kv.str("pre", ""));
+        b = b.with_config(cfg.clone());
+        b = apply_setters(b, &kv.str("post", ""));
+        (b.build(), Some(cfg))
+    } else {
+        let mut b = HealthCheckWrapper::builder().with_checker(checker);
+        for i in 0..n {
+            b = b.with_context(i, format!("r{}", i));
+        }
+        let w = b
             .with_interval(Duration::from_millis(kv.u64("iv", 10)))
             .with_initial_delay(Duration::from_millis(kv.u64("delay", 0)))
             .with_timeout(Duration::from_millis(kv.u64("to", 5)))
@@ -170,11 +282,65 @@ impl Adapter {
             .with_failure_threshold(kv.u64("fth", 2) as u32)
             .with_selection_strategy(strategy(&kv.str("strat", "first")))
             .build();
-        if now_or_pending(wrapper.start()).is_none() {
+        (w, None)
+    }
+}
+
+impl Adapter {
+    /// must be called inside the runtime (`start` spawns the periodic task)
+    pub fn new(kv: &Kv) -> Adapter {
+        let n = kv.u64("n", 1) as usize;
+        let dflt = parse_item(&kv.str("dflt", "k")).unwrap_or(Item { sym: 'k', lat: 0 });
+        let scripts = Arc::new(Mutex::new(Scripts { q: (0..n).map(|_| VecDeque::new()).collect(), dflt, next: 0 }));
+        let (wrapper, config) = if kv.get("chk") == Some("fn") {
+            let sc = scripts.clone();
+            let f: FnChecker = Box::new(move |r: &usize| start_check(&sc, *r));
+            let (w, c) = build(kv, n, f);
+            (W::F(w), c)
+        } else {
+            let (w, c) = build(kv, n, Checker { scripts: scripts.clone() });
+            (W::S(w), c)
+        };
+        let a = Adapter { wrapper, config, scripts, n };
+        if kv.u64("start", 1) != 0 && on_w!(a, w => now_or_pending(w.start())).is_none() {
             log("#start-pending".into());
         }
-        Adapter { wrapper, scripts, n }
+        a
     }
+}
+
+/// `probe fresh n=<k>`: contexts as `HealthCheckedContext::new` makes them, a closure used through the `Selector`
+/// trait over them, and the extension store (which must leave status and counters alone)
+fn fresh(k: usize) -> String {
+    let ctxs: Vec<HealthCheckedContext<usize>> = (0..k).map(|i| HealthCheckedContext::new(i, format!("f{}", i))).collect();
+    let all = |c: &[HealthCheckedContext<usize>]| {
+        if c.is_empty() {
+            "-".to_string()
+        } else {
+            c.iter().map(|x| st_letter(x.status())).collect::<Vec<_>>().join(",")
+        }
+    };
+    let before = all(&ctxs);
+    let f: u64 = ctxs.iter().map(|c| c.consecutive_failures()).sum();
+    let s: u64 = ctxs.iter().map(|c| c.consecutive_successes()).sum();
+    let first_unusable = |c: &[HealthCheckedContext<usize>]| c.iter().position(|x| !x.status().is_usable());
+    let first_usable = |c: &[HealthCheckedContext<usize>]| c.iter().position(|x| x.status().is_usable());
+    let sel = format!("{}/{}", render(Some(Selector::select(&first_unusable, &ctxs))), render(Some(Selector::select(&first_usable, &ctxs))));
+    let opt = |v: Option<u64>| v.map(|x| x.to_string()).unwrap_or_else(|| "none".to_string());
+    let ext = match ctxs.first() {
+        None => "-".to_string(),
+        Some(c) => {
+            c.set_extension("x", Box::new(7u64));
+            format!(
+                "{}/{}/{}/{}",
+                opt(c.get_extension::<u64>("x")),
+                opt(c.get_extension::<u32>("x").map(|x| x as u64)),
+                opt(c.get_extension::<u64>("y")),
+                opt(c.clone().get_extension::<u64>("x"))
+            )
+        }
+    };
+    format!("{} f={} s={} sel={} ext={} after={}", before, f, s, sel, ext, all(&ctxs))
 }
 
 impl Mw for Adapter {
@@ -186,9 +352,27 @@ impl Mw for Adapter {
         48
     }
     fn manual(&mut self, what: &str, kv: &Kv) {
-        if what != "script" {
-            log("noop".into());
-            return;
+        match what {
+            "start" => {
+                // `start()` again: the running periodic task is aborted, a new one spawned
+                if on_w!(self, w => now_or_pending(w.start())).is_none() {
+                    log("#start-pending".into());
+                }
+                log("started".into());
+                return;
+            }
+            "stop" => {
+                if on_w!(self, w => now_or_pending(w.stop())).is_none() {
+                    log("#stop-pending".into());
+                }
+                log("stopped".into());
+                return;
+            }
+            "script" => {}
+            _ => {
+                log("noop".into());
+                return;
+            }
         }
         let r = kv.opt_u64("r").map(|x| x as usize);
         let items: Option<Vec<Item>> = kv.get("seq").map(|s| s.split(',').map(parse_item).collect()).unwrap_or(None);
@@ -208,7 +392,7 @@ impl Mw for Adapter {
                 };
                 let name = format!("r{}", r);
                 if what == "status" {
-                    let s = now_or_pending(self.wrapper.get_status(&name));
+                    let s = on_w!(self, w => now_or_pending(w.get_status(&name)));
                     let txt = match s {
                         None => "pending",
                         Some(None) => "none",
@@ -216,7 +400,7 @@ impl Mw for Adapter {
                     };
                     log(format!("probe status r={} = {}", r, txt));
                 } else {
-                    let d = now_or_pending(self.wrapper.get_health_details()).unwrap_or_default();
+                    let d = on_w!(self, w => now_or_pending(w.get_health_details())).unwrap_or_default();
                     match d.iter().find(|d| d.name == name) {
                         Some(d) => log(format!(
                             "probe details r={} = {} f={} s={}",
@@ -230,20 +414,35 @@ impl Mw for Adapter {
                 }
             }
             "all" => {
-                let v = now_or_pending(self.wrapper.get_all_statuses()).unwrap_or_default();
-                let txt: Vec<&str> = v
-                    .iter()
-                    .map(|(_, s)| match s {
-                        HealthStatus::Healthy => "h",
-                        HealthStatus::Degraded => "d",
-                        HealthStatus::Unhealthy => "u",
-                        HealthStatus::Unknown => "k",
-                    })
-                    .collect();
+                let v = on_w!(self, w => now_or_pending(w.get_all_statuses())).unwrap_or_default();
+                let txt: Vec<&str> = v.iter().map(|(_, s)| st_letter(*s)).collect();
                 log(format!("probe all = {}", if txt.is_empty() { "-".to_string() } else { txt.join(",") }));
             }
-            "get_healthy" => log(format!("probe get_healthy = {}", render(now_or_pending(self.wrapper.get_healthy())))),
-            "get_usable" => log(format!("probe get_usable = {}", render(now_or_pending(self.wrapper.get_usable())))),
+            "get_healthy" => log(format!("probe get_healthy = {}", render(on_w!(self, w => now_or_pending(w.get_healthy()))))),
+            "get_usable" => log(format!("probe get_usable = {}", render(on_w!(self, w => now_or_pending(w.get_usable()))))),
+            "config" => match &self.config {
+                // the getters of the stand-alone config value
+                Some(c) => log(format!(
+                    "probe config = iv={} delay={} to={} sth={} fth={}",
+                    c.interval().as_millis(),
+                    c.initial_delay().as_millis(),
+                    c.timeout().as_millis(),
+                    c.success_threshold(),
+                    c.failure_threshold()
+                )),
+                None => log("noop".into()),
+            },
+            "u8" => match kv.opt_u64("v") {
+                Some(v) if v < 256 => {
+                    let st = HealthStatus::from(v as u8);
+                    log(format!("probe u8 v={} = {} {}", v, st_name(st), u8::from(st)));
+                }
+                _ => log("noop".into()),
+            },
+            "fresh" => match kv.opt_u64("n") {
+                Some(k) if k <= 8 => log(format!("probe fresh n={} = {}", k, fresh(k as usize))),
+                _ => log("noop".into()),
+            },
             _ => log("noop".into()),
         }
     }
